@@ -301,6 +301,7 @@ type httpFreshness struct {
 	noStore      bool
 	expiresIn    int  // seconds after Date; 0 = header absent; negative = in the past
 	hasExpires   bool
+	expiresRaw   string // when set: sent verbatim (not a valid HTTP date)
 	age          int // Age header, -1 absent
 	lifetimeS    int // RFC 7234 4.2.1 freshness lifetime in seconds, valid when explicit
 	explicit     bool
@@ -321,11 +322,14 @@ func drawFreshness(s *simcore.Source) httpFreshness {
 	default:
 		f.maxAge = 5 + s.Draw(20, "max-age-small")
 	}
-	switch s.Draw(4, "expires") {
+	switch s.Draw(6, "expires") {
 	case 1:
 		f.hasExpires, f.expiresIn = true, 40+s.Draw(100, "expires-in")
 	case 2:
 		f.hasExpires, f.expiresIn = true, -30
+	case 3:
+		// RFC 7234 5.3: invalid dates, especially "0", are a time in the past: already expired
+		f.hasExpires, f.expiresIn, f.expiresRaw = true, -1, simcore.Pick(s, []string{"0", "-1", "never", "Thu, 99 Foo 2099 00:00:00 GMT"}, "expires-invalid")
 	}
 	// the Age header is not part of the property's quantifier (Cache-Control/Expires/Date) and is not generated
 	var parts []string
@@ -354,7 +358,9 @@ func (f httpFreshness) apply(w http.ResponseWriter) {
 	if f.cacheControl != "" {
 		w.Header().Set("Cache-Control", f.cacheControl)
 	}
-	if f.hasExpires {
+	if f.hasExpires && f.expiresRaw != "" {
+		w.Header().Set("Expires", f.expiresRaw)
+	} else if f.hasExpires {
 		w.Header().Set("Expires", now.Add(secs(f.expiresIn)).Format(http.TimeFormat))
 	}
 	if f.age >= 0 {
@@ -363,7 +369,7 @@ func (f httpFreshness) apply(w http.ResponseWriter) {
 }
 
 func (f httpFreshness) String() string {
-	return fmt.Sprintf("cc=%q expires=%v/%d age=%d lifetime=%d explicit=%v", f.cacheControl, f.hasExpires, f.expiresIn, f.age, f.lifetimeS, f.explicit)
+	return fmt.Sprintf("cc=%q expires=%v/%d%s age=%d lifetime=%d explicit=%v", f.cacheControl, f.hasExpires, f.expiresIn, f.expiresRaw, f.age, f.lifetimeS, f.explicit)
 }
 
 func c10RemoteScenario(r *simcore.Run, kind string) {
